@@ -91,18 +91,18 @@ func g16GetFixture(shape string) *g16Fixture {
 		f.pubVec1 = pubVector(pub1)
 		hookMu.RLock()
 		defer hookMu.RUnlock()
-		p0, err := groth16.Prove(ccs, pk, f.full0)
+		p0, err := groth16.Prove(ccs, pk, f.full0, G16ProverOpts...)
 		if err != nil {
 			return fmt.Errorf("prove0: %w", err)
 		}
 		f.proof = p0.(*g16c.Proof)
-		p1, err := groth16.Prove(ccs, pk, full1)
+		p1, err := groth16.Prove(ccs, pk, full1, G16ProverOpts...)
 		if err != nil {
 			return fmt.Errorf("prove1: %w", err)
 		}
 		f.other = p1.(*g16c.Proof)
 		// sanity: the genuine proofs verify
-		if err := groth16.Verify(f.proof, f.vk, f.pub0); err != nil {
+		if err := groth16.Verify(f.proof, f.vk, f.pub0, G16VerifierOpts...); err != nil {
 			return fmt.Errorf("genuine proof rejected: %w", err)
 		}
 		return nil
@@ -176,7 +176,7 @@ func g16Run(b *Behaviour) Result {
 			}
 			var p groth16.Proof
 			var err error
-			pan, msg := common.Safely(func() { p, err = groth16.Prove(f.ccs, f.pk, f.full0) })
+			pan, msg := common.Safely(func() { p, err = groth16.Prove(f.ccs, f.pk, f.full0, G16ProverOpts...) })
 			verifhook.PostSolveFn = nil
 			hookMu.Unlock()
 			if pan {
@@ -323,7 +323,8 @@ func g16Run(b *Behaviour) Result {
 		toVerify = dec
 	}
 	var verr error
-	pan, msg := common.Safely(func() { verr = groth16.Verify(toVerify, vk, pw, vopts...) })
+	allOpts := append(append([]backend.VerifierOption(nil), G16VerifierOpts...), vopts...)
+	pan, msg := common.Safely(func() { verr = groth16.Verify(toVerify, vk, pw, allOpts...) })
 	switch {
 	case pan:
 		res.Verdict, res.Stage, res.Err = "panic", "verify", msg
@@ -336,6 +337,37 @@ func g16Run(b *Behaviour) Result {
 		G16Observer(b, f.ccs, toVerify, vk, pw, res.Verdict)
 	}
 	return res
+}
+
+// G16ProverOpts / G16VerifierOpts are appended to every native Prove / Verify call of the Groth16 replay (the recursion
+// replay sets them to the options matching the in-circuit verifier before the first fixture is built).
+var (
+	G16ProverOpts   []backend.ProverOption
+	G16VerifierOpts []backend.VerifierOption
+)
+
+// G16Alt returns the verifying key of the fixture's alternative circuit (same layout, other constraints).
+func G16Alt(shape string) groth16.VerifyingKey {
+	f := g16GetFixture(shape)
+	if f.setupErr != nil {
+		return nil
+	}
+	return f.vkAlt
+}
+
+// G16KeyHasInfinity reports whether one of the public-input bases of the key is the point at infinity (a public input
+// no constraint uses): such a key is outside the domain of incomplete in-circuit arithmetic.
+func G16KeyHasInfinity(vk groth16.VerifyingKey) bool {
+	k, ok := vk.(*g16c.VerifyingKey)
+	if !ok {
+		return true
+	}
+	for i := range k.G1.K {
+		if k.G1.K[i].IsInfinity() {
+			return true
+		}
+	}
+	return false
 }
 
 // G16Observer, when set, sees every edited triple that reached the native verifier (default options) together with the
